@@ -200,6 +200,10 @@ def units(ctx):
         'attack strings on a non-yaqlized canary; 15 yaqlization settings x '
         '6 member names x 3 access forms against the reference policy; '
         'non-name keys; auto-yaqlized results', timeout=600))
+    from contracts import colls3 as _c3
+    us += [contract_unit(c, world_setup=_c3.setup)
+           for c in _c3.predicate_contracts() + _c3.wrapper_contracts()
+           if 'C07' in c.serves]
     return us
 
 
